@@ -243,3 +243,54 @@ Definition released_eqb (a b : list kcidr) : bool :=
 Definition blocks_eqb (a b : list rawcidr) : bool :=
   Nat.eqb (length a) (length b) && forallb (fun x => existsb (rawcidr_eqb x) b) a
   && forallb (fun x => existsb (rawcidr_eqb x) a) b.
+
+(* ---- reconcile with failing API writes.
+   [sf] : names of pools whose UpdateStatus call fails in this pass, [uf] : names whose Update
+   (finalizer write) fails.  What pool_controller.go does on these paths:
+   - updateCondition mutates the controller's local copy BEFORE the write; on failure the local
+     copy keeps the new condition, the datastore keeps the old one, the error is collected and
+     the pass goes on exactly as without the failure (in particular a terminating pool is still
+     put into the overlap trie; decisions never depend on write results);
+   - no write is attempted when the condition is already as wanted;
+   - reconcile() still runs reconcileFinalizer for every pool, on the LOCAL copies;
+   - updateFinalizers sends Update(local copy with the new finalizers); status is a subresource,
+     so the stored status is not touched by it; on failure nothing changes and the error is
+     collected;
+   - reconcile returns the aggregate of all errors (the work item is then requeued). *)
+Definition mem_name (n : list N) (l : list (list N)) : bool := existsb (name_eqb n) l.
+
+Definition status_written (p : pool) (d : decision) : bool :=
+  negb (cond_eqb (p_cond p) (p_cond (apply_decision p d))).
+
+Record fout := mkFout { ff_pool : pool; ff_released : option kcidr; ff_err : bool }.
+
+Definition final_f (sf uf : list (list N)) (blocks : list rawcidr) (p : pool) (d : decision) : fout :=
+  let loc := apply_decision p d in                       (* the controller's local copy *)
+  let sfailed := status_written p d && mem_name (p_name p) sf in
+  let fo := fin_step blocks loc in                       (* reconcileFinalizer acts on the local copy *)
+  let want := p_fin (fo_pool fo) in
+  let ufailed := negb (Bool.eqb want (p_fin p)) && mem_name (p_name p) uf in
+  mkFout (mkPool (p_name p) (p_created p) (p_cidr p) (p_disabled p) (p_deleting p)
+                 (if sfailed then p_cond p else p_cond loc)
+                 (if ufailed then p_fin p else want) (p_ofin p))
+         (fo_released fo) (sfailed || ufailed || fo_err fo).
+
+Fixpoint pass_f (tf : bool) (sf uf : list (list N)) (blocks : list rawcidr) (t : trie) (ps : list pool) : list fout :=
+  match ps with
+  | [] => []
+  | p :: ps' => let '(d, t') := decide tf t p in final_f sf uf blocks p d :: pass_f tf sf uf blocks t' ps'
+  end.
+
+Definition reconcile_f (tf : bool) (sf uf : list (list N)) (pools : list pool) (blocks : list rawcidr) : rec_out :=
+  let outs := pass_f tf sf uf blocks [] (sort_pools pools) in
+  mkRecOut (map ff_pool outs)
+           (flat_map (fun o => match ff_released o with Some k => [k] | None => [] end) outs)
+           (existsb ff_err outs).
+
+Definition reconcile_step_f (tf : bool) (sf uf : list (list N)) (s : state) : state :=
+  mkState (gc (ro_pools (reconcile_f tf sf uf (st_pools s) (st_blocks s)))) (st_blocks s).
+
+Inductive hopf := FApi (o : op) | FReconcile (sf uf : list (list N)).
+Definition hstepf (tf : bool) (s : state) (h : hopf) : state :=
+  match h with FApi o => api_step s o | FReconcile sf uf => reconcile_step_f tf sf uf s end.
+Definition run_history_f (tf : bool) (s : state) (hs : list hopf) : state := fold_left (hstepf tf) hs s.
